@@ -1,11 +1,11 @@
 #!/usr/bin/env python3
 """keepseed.py <ID> <caught:yes|no|after-strengthening> "<what it needs to manifest>" "<which units/labels caught it or why missed>"  -- files /tmp/seed/<ID> -> seeded/<ID>/"""
 import sys, os, shutil, json, re
-i, caught, needs, how = sys.argv[1:5]; d = '/tmp/seed/' + i; o = os.path.join(os.path.dirname(os.path.abspath(__file__)), 'seeded', i); os.makedirs(o, exist_ok=True)
+i, caught, needs, how = sys.argv[1:5]; SR = os.environ.get('SEEDROOT', '/tmp/seed'); SUF = os.environ.get('SEEDSUFFIX', ''); d = SR + '/' + i; o = os.path.join(os.path.dirname(os.path.abspath(__file__)), 'seeded', i + SUF); os.makedirs(o, exist_ok=True)
 shutil.copy(d + '/seed.patch', o + '/patch.diff'); shutil.copy(d + '/demo.cpp', o + '/demo.cpp')
 cmd = open(d + '/demo_cmd.txt').read().replace(d, '$WT'); open(o + '/demo_cmd.txt', 'w').write(cmd)
 if os.path.exists(d + '/notes.md'): shutil.copy(d + '/notes.md', o + '/notes.md')
-rep = open('/tmp/seed/%s.report' % i).read() if os.path.exists('/tmp/seed/%s.report' % i) else ''
+rep = open(SR + '/%s.report' % i).read() if os.path.exists(SR + '/%s.report' % i) else ''
 m = re.search(r'passed=(\d+) failed=(\d+)', rep)
 json.dump(dict(property=i, breaks=open(d + '/notes.md').read()[:700] if os.path.exists(d + '/notes.md') else '', needs_to_manifest=needs, produced_by='independent sub-agent given only the property text and a scratch worktree',
   confirmed=dict(demo_with_patch='exit non-zero (violation reported)', demo_without_patch='exit 0', existing_tests_with_patch=('%s passed, %s failed (the failure is the baseline always_fail test Edge_collapse_utilities_diff_persistence when present)' % (m.group(1), m.group(2))) if m else 'see notes.md',
